@@ -69,6 +69,28 @@ def check_pr(run, pkg):
             return N
         return None
     ret = canon(it.returns[0].data["value"])
+    # loop-free expression of the field: decided exactly on a 3 x 2 array of distinct real symbols when the reduction spellings
+    # (einsum / dot / nested sums) are outside the algebraic normaliser
+    tr_ = S.Translator(at)
+    try:
+        okalg, _ = S.decide_equal(tr_.tr(ret), SUM(V ** 2) ** 2 / (N * SUM(SUMA(V ** 2, 1) ** 2)))
+    except Exception:  # noqa
+        okalg = None
+    if okalg is None and not it.loops:
+        try:
+            import numpy as np
+            from ..concrete import ev as cev, symbolic_array
+            from ..vg import inline_calls, strip_alloc
+            E = symbolic_array((3, 2), "e", complex_=False)
+            got = cev(strip_alloc(inline_calls(pkg, it.returns[0].data["value"])), {VEC: E, ("sub", ("attr", VEC, "shape"), C(0)): 3})
+            sq = [sum(x ** 2 for x in row) for row in E]
+            want = sum(sq) ** 2 / (3 * sum(x ** 2 for x in sq))
+            dlt = sp.simplify(sp.sympify(got) - want)
+            run.ob("R-ALG", fq, "participation-ratio", True if dlt == 0 else False, "PR = (sum_i e_i.e_i)^2 / (N sum_i (e_i.e_i)^2) - decided exactly on a symbolic 3 x 2 field",
+                   show(ret)[:110], witness=None if dlt == 0 else f"3 x 2 field: code - definition = {sp.sstr(dlt)[:160]}", loc=it.fi.loc(), sound=True)
+            return
+        except Exception:  # noqa
+            pass
     check_algebra(run, "R-ALG", it, "participation-ratio", "PR = (sum_i e_i.e_i)^2 / (N sum_i (e_i.e_i)^2)", ret, SUM(V ** 2) ** 2 / (N * SUM(SUMA(V ** 2, 1) ** 2)), at, it.fi.loc())
 
 
